@@ -42,6 +42,26 @@ TEXT = {
              "replay tail, installed peer and single consumption of the pending resume are compared; random long histories are sampled.",
         note="Trusts the model in harness/src/c11_13.rs; pushes abut (the documented precondition of push_replay).",
         ref="DESIGN.md §4 C13"),
+    "C14": dict(
+        technique="reference-model runtime monitor (plain JSON document + callable log), differential mount replay, linearizability checking of recorded concurrent histories; Miri",
+        text="Runtime monitoring: registrations, merges, reads, writes and calls are executed on the real Registry and on a plain "
+             "serde_json document model driven by an independent RFC 6901 tokenizer; after every operation the result class/value, the "
+             "whole document (so unrelated pointers are covered) and the callable invocation log are compared. All sequences in the small "
+             "scope (3 pointers x 3 values, length <= 5) are enumerated, random sequences up to 100 operations are sampled, pointer helpers "
+             "round-trip to depth 40, the same requests are replayed through Router::with_registry under five prefixes against a directly "
+             "driven twin, and concurrent histories (<= 4 threads x 4 ops) are checked for linearizability by exact search.",
+        note="Trusts the document model and tokenizer in harness/src/c14.rs; bare '/' and non-canonical array indices are not generated (unspecified).",
+        ref="DESIGN.md §4 C14"),
+    "C18": dict(
+        technique="reference-model runtime monitor + linearizability checking of recorded concurrent histories (incl. broadcasts with capturing sinks); Miri with data-race detector",
+        text="Runtime monitoring: all insert/remove/alias sequences up to length 5 (quick) / 7 (thorough) over 3 peers x 3 keys, a cover of "
+             "every model state reachable within 10 operations, and random histories up to 200 operations are executed on the real "
+             "PeerRegistry with every observer (get, get_by, key_for, aliases_for, len) compared with a reference model after each checked "
+             "operation; broadcasts are checked with capturing sinks (exactly one delivery of path/body/format per present peer, one result "
+             "per peer); concurrent histories of up to 4 threads are recorded with a global clock and checked for linearizability by exact search.",
+        note="Trusts the model in harness/src/c18.rs; re-inserting a present id is outside the documented precondition and not generated. "
+             "The property's 'all sequences up to length 10' is reached only modulo model-state equivalence (state cover), full sequences to length 7.",
+        ref="DESIGN.md §4 C18"),
 }
 
 ALL = [f"C{i:02d}" for i in range(1, 20)]
